@@ -68,10 +68,18 @@ def jde_inputs(seed, shard, nb, nr):
 
 def gen_rt(seed, shard, nb, nr):
     from pymeeus.Epoch import Epoch
-    for x in jde_inputs(seed, shard, nb, nr):
+    shared = Epoch(2451545.0)
+    shared.get_full_date()
+    for i, x in enumerate(jde_inputs(seed, shard, nb, nr)):
         ev = {"k": "rt", "xf": x, "x": fx(x), "ok": 1, "bok": 0, "back": BAD}
         try:
-            e = Epoch(x)
+            if i % 3 == 2:
+                # one long-lived Epoch re-targeted with set(), read before and after: whatever the object remembers of its
+                # previous instant must not leak into the views of the new one
+                shared.set(x)
+                e = shared
+            else:
+                e = Epoch(x)
             ev["stored"] = fx(e.jde())
             y, m, d, h, mi, s = e.get_full_date()
             ev["f"] = [_ii(y), _ii(m), _ii(d), _ii(h), _ii(mi)]
